@@ -160,10 +160,11 @@ def mc_configs(tier, slots):
         q += [
             cfg("weak memory: 2 senders x 2, 1 receiver x 3", 1500, Senders={1, 2}, Receivers={3},
                 Sends=2, Recvs=3),
-            cfg("weak memory MPMC: 2 senders x 2, 2 receivers x 2, pre-filled 2", 2400,
+            # the next two do not finish (> 60 M distinct states in 40 min): random simulation
+            cfg("SIM weak memory MPMC: 2 senders x 2, 2 receivers x 2, pre-filled 2", 480,
                 Senders={1, 2}, Receivers={3, 4}, Sends=2, Recvs=2, Prefill=2),
-            cfg("weak memory: 3 senders x 1, 1 receiver x 3, nested send on the receiver, "
-                "pre-filled SLOTS-2, 2 spurious", 2400, Senders={1, 2, 3}, Receivers={4}, Sends=1,
+            cfg("SIM weak memory: 3 senders x 1, 1 receiver x 3, nested send on the receiver, "
+                "pre-filled SLOTS-2, 2 spurious", 480, Senders={1, 2, 3}, Receivers={4}, Sends=1,
                 Recvs=3, Prefill=slots - 2, DeliverOn={4}, MaxNested=1, MaxDeliveries=1,
                 MaxSpurious=2),
         ]
@@ -193,6 +194,9 @@ def scenarios(tier):
         sc("s1_r1_nested_pre3_post", 1, 1, 1, 1, 3, ["--nested", 1, "--preempt", 1, "--post-points"]),
     ]
     q.append(sc("s2x1_r1x6_pre4_p3", 2, 1, 1, 6, 4, ["--preempt", 3]))
+    # a send nested in the first of 7 receives on a full channel: what it leaves behind is met by the
+    # later receives (a slot named by `full` whose cell is empty panics only when its turn comes)
+    q.append(sc("r1x7_nested_full", 0, 0, 1, 7, 5, ["--nested", 1, "--preempt", 0, "--post-points"]))
     if tier == "thorough":
         q += [
             sc("s2x2_r1x3_p2", 2, 2, 1, 3, 0, ["--preempt", 2]),
@@ -221,6 +225,7 @@ def run_channel(chk, tier):
             c.update(consts)
             second = what == mc_configs(tier, slots)[1][0]
             r = chk.model_check("Channel.tla", c, invariants=INV_OF[pid], what=what,
+                                simulate="num=100000000" if what.startswith("SIM ") else None,
                                 timeout=tmo, workers=8 if tier == "quick" else 12,
                                 expect=CH_ACTIONS if second else ())
             if r.violation:
